@@ -237,10 +237,28 @@ func (s *h2srv) serve(c net.Conn) {
 				default:
 					sw.segs = nil
 				}
+				batch := x.SegK == "batch" // every frame of the response in ONE write, before the caller reads anything
 				for i, h := range o.heads {
 					last := i == len(o.heads)-1
 					writeHeaders(sid, h, last && o.HdrEnd, o.ContFrag)
+					if !batch {
+						flush()
+					}
+				}
+				if batch {
+					for _, d := range o.Data {
+						if d.Pad > 0 {
+							fr.WriteDataPadded(sid, d.End, x.A.Body[d.Off:d.Off+d.Len], make([]byte, d.Pad))
+						} else {
+							fr.WriteData(sid, d.End, x.A.Body[d.Off:d.Off+d.Len])
+						}
+					}
+					if o.UseTrailers {
+						writeHeaders(sid, o.trailerWire, true, o.ContFrag)
+					}
 					flush()
+					wmu.Unlock()
+					return
 				}
 				wmu.Unlock()
 				for _, d := range o.Data {
